@@ -13,8 +13,10 @@ def prob(draw, p):
 
 
 @st.composite
-def g1_nodes(draw, min_nodes=2, max_nodes=7, prefix="n", out_prefix="o", in_prefix="x", p_edge=0.7, allow_no_out=True, default_on_edge=0.2):
-    """Acyclic gate-free program: list of func-node specs in a topological order (unique producers)."""
+def g1_nodes(draw, min_nodes=2, max_nodes=7, prefix="n", out_prefix="o", in_prefix="x", p_edge=0.7, allow_no_out=True, default_on_edge=0.2,
+             nested_names=False):
+    """Acyclic gate-free program: list of func-node specs in a topological order (unique producers).
+    nested_names: node names are prefixes of one another (step, step_a, step_a_a, ...) - legal, and a trap for string matching."""
     n = draw(st.integers(min_nodes, max_nodes))
     avail: list[str] = []
     produced: set[str] = set()
@@ -23,7 +25,7 @@ def g1_nodes(draw, min_nodes=2, max_nodes=7, prefix="n", out_prefix="o", in_pref
     n_inputs = 0
     nodes = []
     for i in range(n):
-        name = f"{prefix}{i}"
+        name = f"{prefix}{i}" if not nested_names else "step" + "_a" * i
         k = draw(st.integers(0, 3))
         params: list[str] = []
         for _ in range(k):
@@ -118,7 +120,7 @@ def _consumed(nodes):
 
 @st.composite
 def g2_nodes(draw, max_nodes=6, p_cycle=0.4, p_signal=0.3, p_fail=0.25, min_gates=1, max_gates=3):
-    base = draw(g1_nodes(2, max_nodes))
+    base = draw(g1_nodes(2, max_nodes, nested_names=prob(draw, 0.25)))
     funcs = [n["name"] for n in base]
     prod = ref.producers(base)
     names = []
@@ -144,6 +146,8 @@ def g2_nodes(draw, max_nodes=6, p_cycle=0.4, p_signal=0.3, p_fail=0.25, min_gate
         g = {"name": f"g{gi}", "params": params, "defaults": defaults, "default_open": draw(st.booleans())}
         _reorder(g)
         pool = funcs + ["END"]
+        if gates and prob(draw, 0.5):
+            pool = pool + [x["name"] for x in gates]  # a gate may route to another gate
         if draw(st.booleans()):
             g["k"] = "ifelse"
             t = draw(st.sampled_from(funcs))
@@ -219,3 +223,143 @@ def g2_nodes(draw, max_nodes=6, p_cycle=0.4, p_signal=0.3, p_fail=0.25, min_gate
             labels.add("failing_nodes>=2")
     nodes = draw(permuted(nodes))
     return nodes, sorted(labels)
+
+
+# ------------------------------------------------------------------------------------
+# nesting transform (C05, C12, C16, C20): wrap an interval of the topological order (convex by construction)
+# ------------------------------------------------------------------------------------
+
+
+def _rename_node(n, pi):
+    m = dict(n)
+    m["params"] = [pi.get(p, p) for p in n.get("params", [])]
+    m["defaults"] = {pi.get(p, p): v for p, v in n.get("defaults", {}).items()}
+    m["outs"] = [pi.get(o, o) for o in n.get("outs", [])]
+    return m
+
+
+@st.composite
+def rename_history(draw, mapping, kind, prefix):
+    """A history of with_inputs/with_outputs batches realising `mapping` (current -> final), possibly through
+    temporary names, with optional identity detours (swap applied twice)."""
+    mapping = {a: b for a, b in mapping.items() if a != b}
+    steps = []
+    cur = list(mapping)
+    if not mapping:
+        return steps
+    style = draw(st.sampled_from(["single", "via_temp", "staged"]))
+    if style == "single":
+        steps.append({"kind": kind, "map": dict(mapping)})
+    elif style == "via_temp":
+        tmp = {a: f"{prefix}tmp{i}" for i, a in enumerate(cur)}
+        steps.append({"kind": kind, "map": tmp})
+        steps.append({"kind": kind, "map": {tmp[a]: mapping[a] for a in cur}})
+    else:
+        # first move a drawn subset to temporaries, then everything to its final name in one parallel batch
+        sub = [a for a in cur if draw(st.booleans())]
+        tmp = {a: f"{prefix}tmp{i}" for i, a in enumerate(sub)}
+        if tmp:
+            steps.append({"kind": kind, "map": tmp})
+        steps.append({"kind": kind, "map": {tmp.get(a, a): mapping[a] for a in cur}})
+    finals = sorted(set(mapping.values()))
+    if len(finals) >= 2 and draw(st.booleans()):
+        a, b = draw(st.permutations(finals))[:2]
+        swap = {"kind": kind, "map": {a: b, b: a}}
+        steps += [swap, dict(swap)]
+    return steps
+
+
+@st.composite
+def nest_spec(draw, topo, depth, bind, level=0, permute_names=True, ext_consumed=frozenset()):
+    """Return (outer node list, exposed outputs lost through inner select) for one nesting level over `topo`."""
+    n = len(topo)
+    a = draw(st.integers(0, n - 1))
+    b = draw(st.integers(a + 1, n))
+    S = topo[a:b]
+    rest_before, rest_after = topo[:a], topo[b:]
+    hidden = []
+    inactive = []
+    outside_consumed = {p for x in rest_before + rest_after for p in x.get("params", [])} | set(ext_consumed)
+    if depth > 1 and len(S) >= 2:
+        S_nodes, hidden_inner, inactive_inner = draw(nest_spec(S, depth - 1, {}, level + 1, permute_names, frozenset(outside_consumed)))
+        hidden += hidden_inner
+        inactive += inactive_inner
+    else:
+        S_nodes = [dict(x) for x in S]
+    # names visible on the boundary of S (flat names)
+    produced = [o for x in S for o in x.get("outs", []) if o not in hidden]
+    consumed_in = []
+    for x in S:
+        for p in x.get("params", []):
+            if p not in consumed_in:
+                consumed_in.append(p)
+    sprod = {o for x in S for o in x.get("outs", [])}
+    inputs = [p for p in consumed_in if p not in sprod]
+    names = list(dict.fromkeys(inputs + produced + [o for o in sprod]))
+    pi = {}
+    if permute_names and len(names) >= 2 and draw(st.booleans()):
+        perm = draw(st.permutations(names))
+        pi = {x: y for x, y in zip(names, perm)}
+    inner_nodes = draw(permuted([_rename_inner(x, pi) for x in S_nodes]))
+    # inner select: keep everything consumed outside, drop a drawn subset of the rest
+    select = None
+    droppable = [o for o in produced if o not in outside_consumed]
+    if droppable and prob(draw, 0.3):
+        dropped = [o for o in droppable if draw(st.booleans())]
+        if dropped and len(dropped) < len(produced):
+            select = [pi.get(o, o) for o in produced if o not in dropped]
+            hidden += dropped
+            # inner nodes outside the backward closure of the kept outputs do not contribute to the wrapper's inputs
+            lvl = [x if x["k"] != "graph" else {"k": "func", "name": x["name"], "params": x["flat_inputs"], "outs": x["flat_outputs"], "_inner": x}
+                   for x in S_nodes]
+            sp = ref.producers(lvl)
+            keep = {sp[o]["name"] for o in produced if o not in dropped and o in sp}
+            closure = ref.ancestors_closure(lvl, keep)
+            for x in lvl:
+                if x["name"] not in closure:
+                    inactive += [nm for nm in _func_names(x.get("_inner", x)) if nm not in inactive]
+    inner_bind = {}
+    has_default = {p for x in topo for p in x.get("defaults", {})}
+    for p in list(bind):
+        # an inner binding of a parameter that carries a signature default AND is shared with an outside consumer is
+        # rejected by design ("Inconsistent defaults", tests/test_bind_defaults.py::test_bound_value_overrides_signature_default)
+        if p in has_default and p in outside_consumed:
+            continue
+        if p in inputs and draw(st.booleans()):
+            inner_bind[pi.get(p, p)] = bind[p]
+    # inputs consumed only by inactive inner nodes are not inputs of the wrapper any more
+    inputs = [p for p in inputs if any(p in x.get("params", []) for x in S if x["name"] not in inactive)]
+    inner_bind = {k: v for k, v in inner_bind.items() if k in {pi.get(p, p) for p in inputs}}
+    gspec = {"name": f"sub{level}", "nodes": inner_nodes, "bind": inner_bind, "select": select}
+    exposed_out = [o for o in produced if o not in hidden]
+    ren = []
+    ren += draw(rename_history({pi.get(p, p): p for p in inputs}, "inputs", f"L{level}i_"))
+    ren += draw(rename_history({pi.get(o, o): o for o in exposed_out}, "outputs", f"L{level}o_"))
+    wrapper = {"k": "graph", "name": f"sub{level}", "graph": gspec, "renames": ren, "inner_bound_flat": [p for p in bind if pi.get(p, p) in inner_bind],
+               "flat_inputs": inputs, "flat_outputs": exposed_out}
+    outer = [dict(x) for x in rest_before] + [wrapper] + [dict(x) for x in rest_after]
+    return outer, hidden, inactive
+
+
+def _func_names(x):
+    if x["k"] != "graph":
+        return [x["name"]]
+    return [nm for y in x["graph"]["nodes"] for nm in _func_names(y)]
+
+
+def _rename_inner(x, pi):
+    """Apply the name permutation to a node spec; a nested wrapper is renamed through one more history batch."""
+    if not pi:
+        return x
+    if x["k"] != "graph":
+        return _rename_node(x, pi)
+    y = dict(x)
+    im = {p: pi.get(p, p) for p in x["flat_inputs"] if pi.get(p, p) != p}
+    om = {o: pi.get(o, o) for o in x["flat_outputs"] if pi.get(o, o) != o}
+    ren = list(x.get("renames", []))
+    if im:
+        ren.append({"kind": "inputs", "map": im})
+    if om:
+        ren.append({"kind": "outputs", "map": om})
+    y["renames"] = ren
+    return y
